@@ -153,6 +153,43 @@ pub fn build_cases(cfg: &Cfg) -> Vec<Case> {
         cases.push(Case { name: format!("Z{} = <a,b | a^{}, b>", n, n), pres: Pres { ngens: 2, rels: vec![pw(1, n), vec![2]] }, k: n.min(cfg.tier.pick(6, 8)) });
         cases.push(Case { name: format!("Z{} = <a,b,c | a, b^{}, c>", n, n), pres: Pres { ngens: 3, rels: vec![vec![1], pw(2, n), vec![3]] }, k: n.min(5) });
     }
+    // rotation groups (fundamental groups of oriented covers: no involutory mirror generators) at high
+    // index bounds, where a deduction at the row being scanned matters
+    {
+        let mut count = 0;
+        for s in gen::connected_sets_upto(2, 3) {
+            gen::for_all_branchings(&s, &|_, _| vec![1, 2, 3, 4, 6], &mut |x| {
+                count += 1;
+                if count % cfg.tier.pick(7, 2) != 0 {
+                    return;
+                }
+                let ori = if x.is_oriented() { x.clone() } else { x.double_cover_by_cocycle(&|_, _| true) };
+                if !ori.is_valid_symbol() || !ori.is_connected() {
+                    return;
+                }
+                if let Ok(fg) = observe(|| {
+                    let fg = rust_dsymbols::fundamental_group::fundamental_group(&to_partial_dsym(&ori));
+                    Pres { ngens: fg.nr_generators(), rels: from_freewords(fg.relators.iter()) }
+                }) {
+                    if fg.ngens >= 2 && fg.ngens <= 3 {
+                        cases.push(Case { name: format!("rotation group of {} (library presentation)", x.to_text()), pres: fg, k: cfg.tier.pick(7, 9) });
+                    }
+                }
+            });
+        }
+        for t in ["<1.1:2 3:2,2,2,2:3,4,4>", "<1.1:1 3:1,1,1,1:4,3,4>", "<1.1:2 3:2,1 2,1 2,2:6,3 2,6>"] {
+            let m = msym_from_text(t).unwrap();
+            let ori = m.double_cover_by_cocycle(&|_, _| true);
+            if let Ok(fg) = observe(|| {
+                let fg = rust_dsymbols::fundamental_group::fundamental_group(&to_partial_dsym(&ori));
+                Pres { ngens: fg.nr_generators(), rels: from_freewords(fg.relators.iter()) }
+            }) {
+                if fg.ngens <= 4 {
+                    cases.push(Case { name: format!("rotation group of 3D symbol {} (library presentation)", t), pres: fg, k: cfg.tier.pick(7, 9) });
+                }
+            }
+        }
+    }
     // random presentations
     for (k, p) in groupcorpus::random_presentations(cfg.seed, cfg.tier.pick(400, 4000)).into_iter().enumerate() {
         let kk = if p.ngens == 2 { cfg.tier.pick(4, 5) } else { 3 };
